@@ -43,6 +43,11 @@ pub enum CallSpec {
 pub struct Case {
     pub program: Program,
     pub calls: Vec<CallSpec>,
+    /// instead of builder limits: a schedule of step calls (`dispatch_n_events` = a count limit for one step,
+    /// `dispatch_events_until` = a time limit for one step) from C10's generator, judged by C10's oracle: every step
+    /// must dispatch exactly the prefix its limit admits and lose nothing
+    #[serde(default)]
+    pub stepped: Option<Vec<crate::c10::StepSpec>>,
 }
 
 pub struct C11;
@@ -224,7 +229,7 @@ impl Prop for C11 {
 
     fn rule() -> String {
         "event programs (as C02/C03) x 0..3 Builder calls max_itr(n) / max_time(T) / limit(tree of EventCount, SimTime, None, CombinedAnd, CombinedOr, depth \
-         <= 3) with n in {0,1,total-2..total+2} and T in {event timestamps -1/0/+1ns, start+k}. Oracle: the limited run handles exactly the longest \
+         <= 3) with n in {0,1,total-2..total+2} and T in {event timestamps -1/0/+1ns, start+k}. One case in seven uses the limits of single steps instead (dispatch_n_events / dispatch_events_until schedules of C10's generator, judged by C10's oracle). Oracle: the limited run handles exactly the longest \
          prefix of the unlimited run (on the real runtime) that an independent evaluator of the limit admits; event_count; end time == timestamp of the \
          last handled event; remaining events (multiset with timestamps) == RefSim pending at the stop; handled + remaining == scheduled. Non-trivial \
          iff the limit truncates the run AND (a count equals the total, or a timestamp equals T, or the limit is nested/composed)."
@@ -259,11 +264,21 @@ impl Prop for C11 {
             2 => time.prop_map(CallSpec::MaxTime),
             3 => tree.prop_map(CallSpec::Limit),
         ];
-        (prog::program_strategy(max_nodes, true, false), proptest::collection::vec(call, 0..3))
-            .prop_map(|(program, calls)| Case { program, calls })
-            .boxed()
+        let plain = (prog::program_strategy(max_nodes, true, false), proptest::collection::vec(call, 0..3)).prop_map(|(program, calls)| Case { program, calls, stepped: None });
+        // one case in seven exercises the limits that the step functions install for a single step
+        let stepped = crate::c10::C10::strategy(tier).prop_map(|c| Case { program: c.program, calls: Vec::new(), stepped: Some(c.steps) });
+        prop_oneof![6 => plain, 1 => stepped].boxed()
     }
     fn run(case: &Case) -> Outcome {
+        // (not on the BinaryHeap build: C10 itself runs there)
+        #[cfg(not(vcheck_heap_backend))]
+        if let Some(steps) = &case.stepped {
+            let c = crate::c10::Case { program: case.program.clone(), steps: steps.clone() };
+            return match crate::c10::run_case(&c) {
+                Ok((_, _)) => Outcome::ok(true, vec!["limits-of-single-steps"]),
+                Err(f) => Outcome::failed(Failure::new(f.sig.clone(), format!("step limits (oracle of C10, {}): {}", f.sig, f.msg))),
+            };
+        }
         match run_case(case) {
             Ok((nt, labels)) => Outcome::ok(nt, labels),
             Err(f) => Outcome::failed(f),
